@@ -347,3 +347,45 @@ def function_skeletons(program: Program):
             out[f] = v
     program.__dict__["_function_skeletons"] = out
     return out
+
+
+def node_child_formatted(program: Program, cls: ClassInfo, attr: str) -> bool:
+    """Exact answer to `can a Node stored in self.<attr> reach a str()/format hole of this class's renderer?`:
+    the renderer is evaluated with the attribute bound to a symbolic object of a Term class, of a renderable class that
+    is not a Term (Table), and of a Node that is neither (Interval); isinstance()/hasattr() fold on it.  True when some
+    probe ends up inside a hole instead of being rendered through its own get_sql(ctx)."""
+    from .symex import Obj
+    memo = program.__dict__.setdefault("_node_child_formatted", {})
+    if (cls, attr) in memo:
+        return memo[(cls, attr)]
+
+    def contains(v, o, d=0):
+        if v is o:
+            return True
+        if d > 14 or isinstance(v, (str, int, float, bool, type(None), CtxV)):
+            return False
+        if isinstance(v, (tuple, list, frozenset)):
+            return any(contains(i, o, d + 1) for i in v)
+        if hasattr(v, "__dataclass_fields__"):
+            return any(contains(getattr(v, n), o, d + 1) for n in v.__dataclass_fields__ if n not in ("src", "ctx"))
+        return False
+    res = False
+    for probe in ("Field", "Table", "Interval"):
+        pc = program.find_cls(probe)
+        if pc is None:
+            continue
+        o = Obj(pc, {}, name=f"<{probe} in {attr}>")
+        try:
+            v, _ev = render(program, cls, attrs={attr: o})
+        except AnalysisError:
+            res = True     # not decided for this probe: keep the candidate
+            break
+        for part, conds, in_rep in walk_parts(v):
+            if isinstance(part, Hole) and contains(part.value, o):
+                res = True
+                break
+        if res:
+            break
+    memo[(cls, attr)] = res
+    return res
+
